@@ -822,6 +822,38 @@ Proof.
   cbn [andb]. apply IH; cbn [px py]; try assumption; nia.
 Qed.
 
+(* mono font layout: display scale = glyph cells and spacing up to 64 px, lines up to 65536 characters *)
+Definition ds_font (cw ch sp bl : Z) : Prop := 0 <= cw <= 64 /\ 0 <= ch <= 64 /\ 0 <= sp <= 64 /\ 0 <= bl <= 64.
+Lemma baseline_offset_bound b ch bl : 0 <= ch <= 64 -> 0 <= bl <= 64 -> 0 <= baseline_offset b ch bl <= 64.
+Proof. intros. unfold baseline_offset. unf_sat. destruct b; lia. Qed.
+Lemma line_elements_total cw sp : 0 <= cw <= 64 -> 0 <= sp <= 64 -> forall n x,
+  - 1073741823 <= x -> x + 128 * Z.of_nat n <= 1073741823 -> line_elements_ok x cw sp n = true.
+Proof.
+  intros Hc Hs. induction n as [|n IH]; intros x Hx Hn; [reflexivity|].
+  cbn [line_elements_ok]. destruct n as [|m]; [ rng | ].
+  rewrite IH by lia. rewrite andb_true_r. sites; rng.
+Qed.
+Lemma draw_string_plain_total pos bo cw sp n : ds_point pos -> 0 <= bo <= 64 -> 0 <= cw <= 64 -> 0 <= sp <= 64 ->
+  0 <= n <= 65536 -> draw_string_plain_ok pos bo cw sp n = true.
+Proof.
+  unf_ds. intros [? ?] ? ? ? ?. pose proof (mul_bound_nn (cw + sp) n 128 65536).
+  unfold draw_string_plain_ok, point_sub_ok, point_add_ok, point_add_size_ok, size_as_i32_ok, padd_size, psub, i32_max.
+  cbn [px py sw sh]. sites; rng.
+Qed.
+Lemma draw_whitespace_total pos bo width : ds_point pos -> 0 <= bo <= 64 -> 0 <= width <= 1048576 ->
+  draw_whitespace_ok pos bo width = true.
+Proof.
+  unf_ds. intros [? ?] ? ?. unfold draw_whitespace_ok, point_sub_ok, point_add_ok, psub. unf_sat. cbn [px py].
+  sites; rng.
+Qed.
+Lemma measure_string_total pos bo cw sp n uo uh underline : ds_point pos -> 0 <= bo <= 64 -> 0 <= cw <= 64 -> 0 <= sp <= 64 ->
+  0 <= n <= 65536 -> 0 <= uo <= 64 -> 0 <= uh <= 64 -> measure_string_ok pos bo cw sp n uo uh underline = true.
+Proof.
+  unf_ds. intros [? ?] ? ? ? ? ? ?. pose proof (mul_bound_nn n (cw + sp) 65536 128).
+  unfold measure_string_ok, measure_width, point_sub_ok, point_add_size_ok, size_as_i32_ok, i32_max. unf_sat.
+  cbn [px py sw sh]. sites; rng.
+Qed.
+
 (* =========================================================================================== *)
 (* ImageRaw, ContiguousPixels, Cropped                                                           *)
 (* =========================================================================================== *)
